@@ -113,8 +113,7 @@ func checkC16(sc *Scenario, st *Stats) *Violation {
 		r := RunArtela(sc, ArtelaOpts{Debug: rep%2 == 0})
 		for i := range r.Obs {
 			if r.Obs[i].Panic != "" {
-				st.Exclude("panic(C03)")
-				return nil
+				return violf("panic", "repetition %d, invocation %d: the VM panicked: %.1500s", rep, i, r.Obs[i].Panic)
 			}
 		}
 		if addrs == nil {
